@@ -218,4 +218,202 @@ theorem pos_of_symbols_pos {σ : String → Nat} : ∀ {s : Shape} {l : List Int
     · exact pos_of_symbols_pos h.2 (fun hm => hz (List.mem_cons_of_mem _ hm)) (by simpa only [hasUnknown] using hu.2)
         (fun d hd => hn d (List.mem_cons_of_mem _ hd)) (fun a ha => hs a (List.mem_cons_of_mem _ ha)) v hv
 
+/-! ### sharper version: dims may be 0 at run time; the only failing target is `[0, -1]` with dim 0 = 0 -/
+
+theorem prodInt_nonneg {l : List Int} (h : ∀ d ∈ l, 0 ≤ d) : 0 ≤ prodInt l := by
+  induction l with
+  | nil => simp only [prodInt, List.foldr_nil]; omega
+  | cons a t ih =>
+    rw [prodInt_cons]
+    exact Int.mul_nonneg (h a (List.mem_cons_self ..)) (ih (fun d hd => h d (List.mem_cons_of_mem _ hd)))
+
+theorem reshape2_zero_lit' (l : List Int) (a b : Int) (ha : 0 ≤ a) (hb : 0 < b) (hp : prodInt l = a * b)
+    (h0 : l[0]? = some a) : reshapeTarget l [0, b] false = some [a, b] := by
+  have h1 : a ≠ -1 := by omega
+  have h2 : b ≠ -1 := by omega
+  have h3 : ¬ a < -1 := by omega
+  have h4 : ¬ b < -1 := by omega
+  have h6 : b ≠ 0 := by omega
+  simp [reshapeTarget, resolveZeros, prodInt_two, prodInt_one, prodInt_nil, h0, h1, h2, h3, h4, h6, hp, Ne.symm h1, Ne.symm h2]
+
+theorem reshape2_neg_left' (l : List Int) (a b : Int) (hb : 0 < b) (hp : prodInt l = a * b) :
+    reshapeTarget l [-1, b] false = some [a, b] := by
+  have h2 : b ≠ -1 := by omega
+  have h4 : ¬ b < -1 := by omega
+  have h6 : b ≠ 0 := by omega
+  have hd : a * b / b = a := Int.mul_ediv_cancel a h6
+  have hm : a * b % b = 0 := Int.mul_emod_left a b
+  simp [reshapeTarget, resolveZeros, prodInt_two, prodInt_one, prodInt_nil, h2, h4, h6, hp, hd, hm, Ne.symm h2]
+
+theorem reshape2_neg_right' (l : List Int) (a b : Int) (ha : 0 < a) (hp : prodInt l = a * b) :
+    reshapeTarget l [a, -1] false = some [a, b] := by
+  have h1 : a ≠ -1 := by omega
+  have h3 : ¬ a < -1 := by omega
+  have h5 : a ≠ 0 := by omega
+  have hd : a * b / a = b := Int.mul_ediv_cancel_left b h5
+  have hm : a * b % a = 0 := Int.mul_emod_right a b
+  simp [reshapeTarget, resolveZeros, prodInt_two, prodInt_one, prodInt_nil, h1, h3, h5, hp, hd, hm, Ne.symm h1]
+
+theorem reshape2_zero_neg' (l : List Int) (a b : Int) (ha : 0 < a) (hp : prodInt l = a * b)
+    (h0 : l[0]? = some a) : reshapeTarget l [0, -1] false = some [a, b] := by
+  have h1 : a ≠ -1 := by omega
+  have h3 : ¬ a < -1 := by omega
+  have h5 : a ≠ 0 := by omega
+  have hd : a * b / a = b := Int.mul_ediv_cancel_left b h5
+  have hm : a * b % a = 0 := Int.mul_emod_right a b
+  simp [reshapeTarget, resolveZeros, prodInt_two, prodInt_one, prodInt_nil, h0, h1, h3, h5, hp, hd, hm, Ne.symm h1]
+
+/-- invariant with positivity of every entry that is a product -/
+def FGood2 (axis : Nat) (P0 P1 : Int) (ns : List Int) : Prop :=
+  ∃ a b, ns = [a, b] ∧ (a = -1 ∨ (a = P0 ∧ 0 < P0) ∨ (a = 0 ∧ axis = 1)) ∧ (b = -1 ∨ (b = P1 ∧ 0 < P1))
+
+theorem FGood2.set0 {axis : Nat} {P0 P1 : Int} {ns : List Int} (h : FGood2 axis P0 P1 ns) (hp : 0 < P0) :
+    FGood2 axis P0 P1 (setAt ns 0 P0) := by
+  obtain ⟨a, b, rfl, _, hb⟩ := h
+  exact ⟨P0, b, by simp [setAt], Or.inr (Or.inl ⟨rfl, hp⟩), hb⟩
+
+theorem FGood2.set1 {axis : Nat} {P0 P1 : Int} {ns : List Int} (h : FGood2 axis P0 P1 ns) (hp : 0 < P1) :
+    FGood2 axis P0 P1 (setAt ns 1 P1) := by
+  obtain ⟨a, b, rfl, ha, _⟩ := h
+  exact ⟨a, P1, by simp [setAt], ha, Or.inr ⟨rfl, hp⟩⟩
+
+theorem flat_phase1_good2 (axis rank : Nat) (l : List Int) (hl : l.length = rank) (h : axis ≤ rank) :
+    FGood2 axis (prodInt (l.take axis)) (prodInt (l.drop axis)) (flatPhase1 (axis : Int) (some (rank : Int))) := by
+  unfold flatPhase1
+  by_cases h0 : axis = 0
+  · subst h0
+    exact ⟨1, -1, by simp, Or.inr (Or.inl (by simp [prodInt])), Or.inl rfl⟩
+  · by_cases h1 : axis = 1
+    · subst h1
+      exact ⟨0, -1, by simp, Or.inr (Or.inr ⟨rfl, rfl⟩), Or.inl rfl⟩
+    · have e0 : ¬ ((axis : Int) = 0) := by omega
+      have e1 : ¬ ((axis : Int) = 1) := by omega
+      simp only [e0, e1, if_false]
+      by_cases hr : axis = rank
+      · subst hr
+        refine ⟨-1, 1, by simp, Or.inl rfl, Or.inr ?_⟩
+        rw [← hl, List.drop_length]; exact ⟨rfl, by decide⟩
+      · have : ¬ (some (axis : Int) = some (rank : Int)) := by
+          intro hc; simp only [Option.some.injEq] at hc; omega
+        simp only [this, if_false]
+        exact ⟨-1, -1, rfl, Or.inl rfl, Or.inl rfl⟩
+
+theorem flat_phase2_good2 {σ : String → Nat} {axis : Nat} {P0 P1 : Int} {ns : List Int} (out : Option Shape)
+    (hout : ∀ o, out = some o → Admits σ o [P0, P1]) (hnz : ∀ o, out = some o → Dim.known 0 ∉ o)
+    (h0 : 0 ≤ P0) (h1 : 0 ≤ P1) (h : FGood2 axis P0 P1 ns) :
+    FGood2 axis P0 P1 (flatPhase2 out ns) := by
+  cases out with
+  | none => exact h
+  | some o =>
+    have ha := hout o rfl
+    have hz := hnz o rfl
+    match o, ha, hz with
+    | [d0, d1], ha, hz =>
+      simp only [Admits] at ha
+      simp only [flatPhase2, List.getElem?_cons_zero, List.getElem?_cons_succ]
+      have s0 : FGood2 axis P0 P1 (match (some d0 : Option Dim) with | some (Dim.known n) => setAt ns 0 n | _ => ns) := by
+        cases d0 with
+        | known n =>
+          simp only [Dim.Admits] at ha
+          have : n ≠ 0 := fun e => hz (by subst e; exact List.mem_cons_self ..)
+          rw [ha.1]; exact h.set0 (by omega)
+        | sym a => exact h
+        | unknown => exact h
+      cases d1 with
+      | known n =>
+        simp only [Dim.Admits] at ha
+        have : n ≠ 0 := fun e => hz (by subst e; exact List.mem_cons_of_mem _ (List.mem_cons_self ..))
+        rw [ha.2.1]; exact s0.set1 (by omega)
+      | sym a => exact s0
+      | unknown => exact s0
+    | [], ha, _ => simp only [Admits] at ha
+    | [_], ha, _ => simp only [Admits] at ha; exact ha.2.elim
+    | _ :: _ :: _ :: _, ha, _ => simp only [Admits] at ha; exact ha.2.2.elim
+
+theorem allInts_pos {σ : String → Nat} {s : Shape} {c l : List Int} (hc : allInts s = some c) (ha : Admits σ s l)
+    (hz : Dim.known 0 ∉ s) (hn : ∀ d ∈ l, 0 ≤ d) : 0 < prodInt l := by
+  have hl := allInts_admits hc ha
+  have hs := allInts_eq_map hc
+  apply prodInt_pos
+  intro d hd
+  have h1 := hn d hd
+  have h2 : d ≠ 0 := by
+    intro e; subst e
+    apply hz
+    rw [hs, ← hl]
+    exact List.mem_map.mpr ⟨0, hd, rfl⟩
+  omega
+
+theorem flat_phase3_good2 {σ : String → Nat} {axis : Nat} {ns : List Int} (s : Shape) (l : List Int)
+    (hs : Admits σ s l) (hax : axis ≤ s.length) (hz : Dim.known 0 ∉ s) (hn : ∀ d ∈ l, 0 ≤ d)
+    (h : FGood2 axis (prodInt (l.take axis)) (prodInt (l.drop axis)) ns) :
+    FGood2 axis (prodInt (l.take axis)) (prodInt (l.drop axis)) (flatPhase3 (some s) (axis : Int) ns) := by
+  obtain ⟨e1, e2⟩ := pySlice_to_nat s axis hax
+  simp only [flatPhase3, e1, e2]
+  have s0 : FGood2 axis (prodInt (l.take axis)) (prodInt (l.drop axis))
+      (match allInts (s.take axis) with | some c => setAt ns 0 (prodInt c) | none => ns) := by
+    cases hc : allInts (s.take axis) with
+    | none => exact h
+    | some c =>
+      have hp := allInts_pos hc (admits_take axis hs) (fun hm => hz (List.mem_of_mem_take hm))
+        (fun d hd => hn d (List.mem_of_mem_take hd))
+      rw [← allInts_admits hc (admits_take axis hs)]; exact h.set0 hp
+  cases hc : allInts (s.drop axis) with
+  | none => exact s0
+  | some c =>
+    have hp := allInts_pos hc (admits_drop axis hs) (fun hm => hz (List.mem_of_mem_drop hm))
+      (fun d hd => hn d (List.mem_of_mem_drop hd))
+    rw [← allInts_admits hc (admits_drop axis hs)]; exact s0.set1 hp
+
+/-- **Exact characterisation.**  Dims may be 0 at run time.  Whenever the rule fires, the emitted Reshape
+yields the Flatten result unless the target is `[0, -1]` and dim 0 is 0. -/
+theorem flatten_core2 {σ : String → Nat} (s : Shape) (out : Option Shape) (axis : Nat) (tgt : List Int)
+    (h : flattenTarget (some s) out (axis : Int) = some tgt) (hax : axis ≤ s.length)
+    (l : List Int) (hs : Admits σ s l) (hn : ∀ d ∈ l, 0 ≤ d)
+    (hout : ∀ o, out = some o → Admits σ o (flattenSpec l axis)) (hoz : ∀ o, out = some o → Dim.known 0 ∉ o)
+    (hbad : tgt = [0, -1] → l.head? ≠ some 0) :
+    reshapeTarget l tgt false = some (flattenSpec l axis) := by
+  have hl := admits_length hs
+  have hz := flatten_fires_no_static_zero s out _ tgt h
+  have hnn : ¬ ((axis : Int) < 0) := by omega
+  simp only [flattenTarget, Option.map_some, hnn, if_false] at h
+  by_cases hz' : hasStaticZero (some s) = true
+  · rw [if_pos hz'] at h; cases h
+  rw [if_neg hz'] at h
+  have hP0 : 0 ≤ prodInt (l.take axis) := prodInt_nonneg (fun d hd => hn d (List.mem_of_mem_take hd))
+  have hP1 : 0 ≤ prodInt (l.drop axis) := prodInt_nonneg (fun d hd => hn d (List.mem_of_mem_drop hd))
+  have good := flat_phase3_good2 (σ := σ) s l hs hax hz hn
+    (flat_phase2_good2 out hout hoz hP0 hP1 (flat_phase1_good2 axis s.length l hl.symm hax))
+  generalize flatPhase3 (some s) (axis : Int) (flatPhase2 out (flatPhase1 (axis : Int) (some (s.length : Int)))) = ns at h good
+  by_cases hcnt : (ns.filter (· == -1)).length > 1
+  · simp only [hcnt, if_true] at h; cases h
+  · simp only [hcnt, if_false, Option.some.injEq] at h
+    subst h
+    obtain ⟨a, b, rfl, ha, hb⟩ := good
+    have hp : prodInt l = prodInt (l.take axis) * prodInt (l.drop axis) := by
+      rw [← prodInt_append, List.take_append_drop]
+    have h0 : axis = 1 → l[0]? = some (prodInt (l.take axis)) := by
+      intro h1; subst h1
+      cases l with
+      | nil => simp only [List.length_nil] at hl; omega
+      | cons x t => simp [prodInt]
+    simp only [flattenSpec]
+    rcases ha with rfl | ⟨rfl, hp0⟩ | ⟨rfl, h1⟩ <;> rcases hb with rfl | ⟨rfl, hp1⟩
+    · exact absurd (by decide) hcnt
+    · exact reshape2_neg_left' l _ _ hp1 hp
+    · exact reshape2_neg_right' l _ _ hp0 hp
+    · exact reshape2_lit l _ _ hp0 hp1 hp
+    · have hne := hbad rfl
+      have hh := h0 h1
+      have hpos : 0 < prodInt (l.take axis) := by
+        cases l with
+        | nil => simp only [List.length_nil] at hl; omega
+        | cons x t =>
+          simp only [List.getElem?_cons_zero, Option.some.injEq] at hh
+          simp only [List.head?_cons, ne_eq, Option.some.injEq] at hne
+          omega
+      exact reshape2_zero_neg' l _ _ hpos hp hh
+    · exact reshape2_zero_lit' l _ _ hP0 hp1 hp (h0 h1)
+
+
 end OV.C09
